@@ -99,10 +99,25 @@ def gen_case(rng, cap, tgt=64 * 1024 * 1024, adds=False, big=False, many=False):
             qs = [shardgen.mk_hash(rng)] + qs
         return "qd " + ",".join(h.hex() for h in qs)
 
+    # some shards are registered together in one call: the code then orders them from the newest to the oldest modification
+    # time (a stable sort), which decides whose entry a shared chunk keeps
+    batch_of = {}
+    if len(order) >= 2 and rng.random() < 0.6:
+        a = rng.randrange(0, len(order) - 1)
+        b = rng.randrange(a + 2, len(order) + 1)
+        times = [rng.choice([1000, 2000, 2000, 3000, 4000]) for _ in range(b - a)]
+        batch_of[order[a]] = "RB " + ",".join("%d:%d" % (order[a + j], times[j]) for j in range(b - a))
+        for j in range(a + 1, b):
+            batch_of[order[j]] = None
     for k, i in enumerate(order):
-        ops.append("R %d" % i)
-        if rng.random() < 0.15:
-            ops.append("R %d" % rng.choice(order[:k + 1]))       # registering a known shard again changes nothing
+        if i in batch_of:
+            if batch_of[i] is None:
+                continue
+            ops.append(batch_of[i])
+        else:
+            ops.append("R %d" % i)
+        if rng.random() < 0.15 and i not in batch_of:
+            ops.append("R %d" % rng.choice([x for x in order[:k + 1] if x not in batch_of] or [i]))       # registering a known shard again changes nothing
         if adds:
             for _ in range(rng.choice([0, 1, 2, 3]) if not many else rng.choice([0, 1])):
                 b = new_block()
@@ -158,11 +173,12 @@ def count(counters, case, io):
     counters["mgr_queries_unanswered"] = counters.get("mgr_queries_unanswered", 0) + sum(1 for o in io if o.startswith("qd") and o.endswith("none"))
     t = case["text"]
     counters["mgr_registrations"] = counters.get("mgr_registrations", 0) + t.count("| R ")
+    counters["mgr_batch_registrations"] = counters.get("mgr_batch_registrations", 0) + t.count("| RB ")
     counters["mgr_blocks_added"] = counters.get("mgr_blocks_added", 0) + t.count("| A ")
     counters["mgr_flushes"] = counters.get("mgr_flushes", 0) + t.count("| FL")
 
 
-SELFCHECK = ["mgr_queries_answered", "mgr_queries_unanswered", "mgr_registrations", "mgr_blocks_added", "mgr_flushes"]
+SELFCHECK = ["mgr_queries_answered", "mgr_queries_unanswered", "mgr_registrations", "mgr_batch_registrations", "mgr_blocks_added", "mgr_flushes"]
 
 
 def big_streams(rng):
